@@ -282,8 +282,6 @@ func (b *Broker) RegisterNode(id NodeID, node Node, opt ...Option) error {
 // This is useful if RegisterNode was used successfully prior to a failed RegisterPipeline call
 // referencing those nodes
 func (b *Broker) RemoveNode(ctx context.Context, id NodeID) error {
-	b.lock.Lock()
-	defer b.lock.Unlock()
 	return b.removeNode(ctx, id, false)
 }
 
@@ -291,35 +289,71 @@ func (b *Broker) RemoveNode(ctx context.Context, id NodeID) error {
 // This is useful if RegisterNode was used successfully prior to a failed RegisterPipeline call
 // referencing those nodes
 // The force option can be used to decrement the count for the node if it's still in use by pipelines
-// This function assumes that the caller holds a lock
+// The node is unregistered while holding the lock, but it is only closed once
+// the lock has been released: closing a node runs code that is allowed to call
+// back into the Broker (the gated filter sends its remaining events when it is
+// closed), which would deadlock if the lock was still held.
 func (b *Broker) removeNode(ctx context.Context, id NodeID, force bool) error {
+	b.lock.Lock()
+	removed, err := b.unregisterNode(id, force)
+	b.lock.Unlock()
+	if err != nil {
+		return err
+	}
+
+	return removed.close(ctx)
+}
+
+// unregisteredNode is a node that has been removed from the Broker and still
+// has to be closed, once the Broker's lock has been released.
+type unregisteredNode struct {
+	id     NodeID
+	node   Node
+	closer bool
+}
+
+// close the node (if there is one to close).
+func (n unregisteredNode) close(ctx context.Context) error {
+	if !n.closer {
+		return nil
+	}
+
+	nc := NewNodeController(n.node)
+	if err := nc.Close(ctx); err != nil {
+		return fmt.Errorf("unable to close node ID %q: %w", n.id, err)
+	}
+
+	return nil
+}
+
+// unregisterNode will remove a node from the broker's registry, if it is not
+// currently in use, and return it so the caller can close it after releasing
+// the lock. Nodes are never closed here.
+// The force option can be used to decrement the count for the node if it's still in use by pipelines
+// This function assumes that the caller holds a lock
+func (b *Broker) unregisterNode(id NodeID, force bool) (unregisteredNode, error) {
 	if id == "" {
-		return fmt.Errorf("unable to remove node, node ID cannot be empty: %w", ErrInvalidParameter)
+		return unregisteredNode{}, fmt.Errorf("unable to remove node, node ID cannot be empty: %w", ErrInvalidParameter)
 	}
 
 	nodeUsage, ok := b.nodes[id]
 	if !ok {
-		return fmt.Errorf("%w: %q", ErrNodeNotFound, id)
+		return unregisteredNode{}, fmt.Errorf("%w: %q", ErrNodeNotFound, id)
 	}
 
 	// if force is passed, then decrement the count for this node instead of failing
 	if nodeUsage.referenceCount > 0 && !force {
-		return fmt.Errorf("cannot remove node, as it is still in use by 1 or more pipelines: %q", id)
+		return unregisteredNode{}, fmt.Errorf("cannot remove node, as it is still in use by 1 or more pipelines: %q", id)
 	}
 
-	var err error
 	switch nodeUsage.referenceCount {
 	case 0, 1:
-		nc := NewNodeController(nodeUsage.node)
-		if err = nc.Close(ctx); err != nil {
-			err = fmt.Errorf("unable to close node ID %q: %w", id, err)
-		}
 		delete(b.nodes, id)
+		return unregisteredNode{id: id, node: nodeUsage.node, closer: true}, nil
 	default:
 		nodeUsage.referenceCount--
+		return unregisteredNode{}, nil
 	}
-
-	return err
 }
 
 // PipelineID is a string that uniquely identifies a Pipeline within a given EventType.
@@ -450,31 +484,52 @@ func (b *Broker) RemovePipelineAndNodes(ctx context.Context, t EventType, id Pip
 		return false, errors.New("pipeline ID cannot be empty")
 	}
 
-	b.lock.Lock()
-	defer b.lock.Unlock()
-
-	g, ok := b.graphs[t]
-	if !ok {
-		return false, fmt.Errorf("no graph for EventType %s", t)
-	}
-
-	nodes, err := g.roots.Nodes(id)
+	removed, nodeErr, err := b.unregisterPipelineAndNodes(t, id)
 	if err != nil {
-		return false, fmt.Errorf("unable to retrieve all nodes referenced by pipeline ID %q: %w", id, err)
+		return false, err
 	}
 
-	g.roots.Delete(id)
-
-	var nodeErr error
-
-	for _, nodeID := range nodes {
-		err = b.removeNode(ctx, nodeID, true)
-		if err != nil {
+	// The lock is no longer held: closing a node may call back into the Broker.
+	for _, n := range removed {
+		if err := n.close(ctx); err != nil {
 			nodeErr = multierror.Append(nodeErr, err)
 		}
 	}
 
 	return true, nodeErr
+}
+
+// unregisterPipelineAndNodes removes the pipeline, and those of its nodes which
+// aren't referenced by other pipelines, from the broker's registry. The removed
+// nodes are returned so they can be closed without holding the lock. A non-nil
+// err means that a precondition failed and nothing was removed, nodeErr
+// collects the errors that occurred while removing nodes.
+func (b *Broker) unregisterPipelineAndNodes(t EventType, id PipelineID) (removed []unregisteredNode, nodeErr error, err error) {
+	b.lock.Lock()
+	defer b.lock.Unlock()
+
+	g, ok := b.graphs[t]
+	if !ok {
+		return nil, nil, fmt.Errorf("no graph for EventType %s", t)
+	}
+
+	nodes, err := g.roots.Nodes(id)
+	if err != nil {
+		return nil, nil, fmt.Errorf("unable to retrieve all nodes referenced by pipeline ID %q: %w", id, err)
+	}
+
+	g.roots.Delete(id)
+
+	for _, nodeID := range nodes {
+		n, err := b.unregisterNode(nodeID, true)
+		if err != nil {
+			nodeErr = multierror.Append(nodeErr, err)
+			continue
+		}
+		removed = append(removed, n)
+	}
+
+	return removed, nodeErr, nil
 }
 
 // SetSuccessThreshold sets the success threshold per EventType.  For the
